@@ -113,6 +113,15 @@ Theorem C08_spike_distance_mirror : forall s1 s2 ts te m ri, valid ts te s1 -> v
 Proof. exact spike_integral_mirror. Qed.
 Print Assumptions C08_spike_distance_mirror.
 
+From PS Require Lem_Findings.
+(* KNOWN FINDING F13 as a theorem: the normalised spike-train order of two trains without spikes is
+   +1 by convention in BOTH argument orders (and for the mirrored input, which is the same input),
+   so the sign change under swap / time reversal fails for all-empty input *)
+Theorem C08_order_sign_change_refuted_for_empty_input : forall eps cy ts te mt m,
+  spike_train_order_bi ROps eps cy false true mt m ([], ts, te) ([], ts, te) = Ok 1.
+Proof. exact Lem_Findings.F13_order_of_empty_trains_not_antisymmetric. Qed.
+Print Assumptions C08_order_sign_change_refuted_for_empty_input.
+
 (* non-vacuity: the pair on which the SPIKE mirror relation used to fail (lone spike on t_start,
    repaired by fix commit 6b5df87) is a valid input, and mirroring keeps validity *)
 Example C08_nonvacuous : valid 0 1 [1/4; 5/8; 1] /\ valid 0 1 [0] /\ valid 0 1 (mirror_train 0 1 [1/4; 5/8; 1]).
